@@ -598,6 +598,11 @@ Section OidcProperty.
         repeat split; auto.
   Qed.
 
+  Lemma record_meaning cfg now vals :
+    (decide (validity_of parse_jwt cfg now vals) = true <-> oidc_code_accepts parse_jwt cfg now vals) /\
+    (property_literal (validity_of parse_jwt cfg now vals) = true <-> oidc_property parse_jwt cfg now vals).
+  Proof. split; [apply decide_iff | apply property_literal_iff]. Qed.
+
   (* exact characterisation of what the code accepts, for every configuration the
      constructor lets through, every clock value, every header list and every token *)
   Theorem oidc_accept_iff cfg now vals :
